@@ -1,5 +1,5 @@
 (* Property C10 — path addressing is exact.  Only statements and [exact]; proofs live in Proofs/KeyPath*.v, Proofs/Hier*.v. *)
-From PG Require Import Common.Tactics Model.KeyPath Model.Hier
+From PG Require Import Common.Tactics Model.KeyPath Model.Hier Model.KeyPathMachine Gen.KeyPathSrc Proofs.KeyPathMachineLink
   Proofs.KeyPathParse Proofs.KeyPathArith Proofs.KeyPathOrder
   Proofs.KeyPathSetBase Proofs.KeyPathSetIter Proofs.KeyPathSetThm Proofs.KeyPathSetEq Proofs.KeyPathSetInter Proofs.HierTraverse Proofs.HierQuery Proofs.HierFlatten Proofs.KeyPathExamples.
 
@@ -13,6 +13,22 @@ Print Assumptions C10_parse_format.
 Theorem C10_format_injective : forall ks ks', Forall key_ok ks -> Forall key_ok ks' -> format ks = format ks' -> ks = ks'.
 Proof. exact format_injective. Qed.
 Print Assumptions C10_format_injective.
+
+(*    Second tie.  Gen/KeyPathSrc.v is regenerated on every run from the source text of KeyPath.parse, _append_key,
+      path_str and _has_special_chars, statement by statement, as programs of the small imperative language of
+      Model/KeyPathMachine.v (translator fails closed on any unrecognised statement).  Interpreting those programs
+      gives exactly parse / format of the model, so the round trip holds for the code as translated. *)
+Theorem C10_src_parse : forall s, run_parse src_parse s = parse s.
+Proof. exact src_run_parse. Qed.
+Print Assumptions C10_src_parse.
+
+Theorem C10_src_format : forall preserve ks, g_fmt_go src_fmt preserve true ks = fmt_go preserve true ks.
+Proof. exact src_format. Qed.
+Print Assumptions C10_src_format.
+
+Theorem C10_parse_format_src : forall ks, Forall key_ok ks -> run_parse src_parse (g_fmt_go src_fmt true true ks) = POk ks.
+Proof. exact src_parse_format. Qed.
+Print Assumptions C10_parse_format_src.
 
 (* 3. Path arithmetic agrees with the key sequences. *)
 Theorem C10_arith : forall p q r k,
